@@ -226,6 +226,39 @@ def ethToClaim (env : Env) (val : Str) (ev : EthEvent) : Except Fail Claim :=
       amount := ev.value
       claimType := ev.claimType }
 
+/-! ### the batch path: `handleEthereumEvent` (relayer/ethereum.go) → `RelayToCosmos` (txs/relayToCosmos.go)
+
+  The loop of `handleEthereumEvent` translates every event of the batch with `EthereumEventToEthBridgeClaim`
+  and appends (a pointer to) each claim that came back without an error; `RelayToCosmos` wraps each claim in
+  a `MsgCreateEthBridgeClaim`, drops those whose `ValidateBasic` fails, and broadcasts the rest in ONE
+  transaction, in order.  A panic in a translation is a panic of the whole call. -/
+
+def claimOf (env : Env) (val : Str) (ev : EthEvent) : Option Claim :=
+  match ethToClaim env val ev with
+  | .ok c => some c
+  | .error _ => none
+
+def translationPanics (env : Env) (val : Str) (ev : EthEvent) : Bool :=
+  match ethToClaim env val ev with
+  | .error .panic => true
+  | _ => false
+
+/-- `MsgCreateEthBridgeClaim.ValidateBasic` on a claim built by the translator (the three `IsHexAddress`
+    tests are always true for texts produced by `Address.String()`) -/
+def validateBasicOK (env : Env) (c : Claim) : Bool :=
+  c.receiver ≠ [] && c.validator ≠ [] && decide (0 ≤ c.nonce) &&
+  !(toLower env c.symbol = str "eth" && !isZeroAddr (c.token.drop 2))
+
+/-- the claims of the one transaction `handleEthereumEvent` broadcasts for a non-empty batch -/
+def relayBatch (env : Env) (val : Str) (events : List EthEvent) : List Claim :=
+  (events.filterMap (claimOf env val)).filter (validateBasicOK env)
+
+/-- `handleEthereumEvent`: `none` = nothing broadcast (empty batch) -/
+def handleBatch (env : Env) (val : Str) (events : List EthEvent) : Except Fail (Option (List Claim)) :=
+  if events.any (translationPanics env val) then .error .panic
+  else if events = [] then .ok none
+  else .ok (some (relayBatch env val events))
+
 /-- `CreateOracleClaimFromEthClaim`: the prophecy id all validators must agree on -/
 def claimId (c : Claim) : Str := decInt c.chainId ++ decInt c.nonce ++ c.sender
 
